@@ -68,6 +68,14 @@ func VH_C17_tar() {
 		p.stat.Mode = uint32(os.ModeDevice) | (p.stat.Mode & permMask) // block device
 		p.stat.Devmajor, p.stat.Devminor = int64(v.U32("major")&0xfff), int64(v.U32("minor")&0xff)
 	}
+	if last := fs.entries[len(fs.entries)-1]; last.stat.Path == "p" && v.Bool("has-q") {
+		// a second name of the special file's inode: the walk reports it as a link entry naming the first
+		q := add("q", clsFile)
+		q.stat.Linkname = "p"
+		q.stat.Mode, q.stat.Uid, q.stat.Gid, q.stat.ModTime = last.stat.Mode, last.stat.Uid, last.stat.Gid, last.stat.ModTime
+		q.stat.Devmajor, q.stat.Devminor = last.stat.Devmajor, last.stat.Devminor
+		v.Cover("hardlinked-special")
+	}
 	var buf bytes.Buffer
 	err := WriteTar(context.Background(), fs, &buf)
 	v.Assert(err == nil, "WriteTar succeeds on a consistent view")
